@@ -392,6 +392,14 @@ class GAcquire:
             suspend(ex, ("lock", self.lock))
             if ex.choose(2, tag="cancelled.while.queued") == 1:
                 raise PyRaise(asyncio.CancelledError())
+            if self.lock.owner == 2 and self.lock.is_locked is True and getattr(g, "other_started", False):
+                # another task got the lock first; we are resumed when it has released it (its request is over)
+                g.lock_events.append(("release", self.lock, 2, 2))
+                self.lock.is_locked, self.lock.owner = False, 0
+                g.other_started = False
+                f = getattr(g.proto, "response_future", None)
+                if f is not None and f.state == PENDING:
+                    f.state = CANCELLED
         # resumes when the lock is free (T4: only a holder releases; waiters are served in turn)
         self.lock.is_locked = True
         self.lock.owner = g.me
@@ -415,6 +423,28 @@ class GWaitFor:
             g.connect_failed = True
             raise PyRaise(asyncio.TimeoutError())
         return aio.await_value(ex, self.aw)
+
+
+class GShield:
+    """asyncio.shield(aw): aw runs as a task of its own; the awaiting task is woken through a done-callback, i.e. it
+    resumes in a later iteration of the loop than the one in which aw finished (other tasks run in between)"""
+    _pyvc_model = True
+
+    def __init__(self, aw):
+        self.aw = aw
+
+    def _pyvc_await(self, ex):
+        from . import aio
+        exc = None
+        v = None
+        try:
+            v = aio.await_value(ex, self.aw)
+        except PyRaise as pr:
+            exc = pr
+        suspend(ex, "shield")
+        if exc is not None:
+            raise exc
+        return v
 
 
 def now(ex):
@@ -443,6 +473,8 @@ def maybe_model(ex, fn, args, kw):
     if fn is asyncio.wait_for:
         timeout = kw.get("timeout", args[1] if len(args) > 1 else None)
         return GWaitFor(args[0], timeout)
+    if fn is asyncio.shield:
+        return GShield(args[0])
     if fn is asyncio.sleep:
         raise Unsupported("asyncio.sleep")
     mod = getattr(fn, "__module__", None) or ""
